@@ -39,6 +39,14 @@ Theorem no_empty_node_under_any_key :
 Proof. exact no_empty_node_anywhere. Qed.
 Print Assumptions no_empty_node_under_any_key.
 
+(* iterate_names / iterate_rdatasets (the one observation `refines` leaves out): a well-formed version counts
+   exactly the distinct owners and the records of its abstraction *)
+Theorem iteration_counts_are_those_of_the_abstraction :
+  forall c m ch d, wfc c -> zwf c m ->
+  s_count (zstore c) (mkVer m ch) = s_count (rstore c) (mkRst (abs c m) d).
+Proof. exact iter_counts_abs. Qed.
+Print Assumptions iteration_counts_are_those_of_the_abstraction.
+
 (* "related" for an observer: Zone.get_node(name) shows, for every owner name in either spelling, exactly
    the rdatasets of the reference store for that owner *)
 Theorem related_zones_look_the_same :
